@@ -116,7 +116,7 @@ func (r *govcReader) Read(p []byte) (int, error) {
 }
 `
 
-const replayElems = 48
+const replayElems = 160
 
 func (rc *replayCtx) heapInit(name string) (string, bool) {
 	init := sanitize(name) + "!init"
@@ -413,7 +413,11 @@ func (rc *replayCtx) goExpr(c *cval) (string, error) {
 		if c.ref == 0 {
 			return rc.typeStr(c.goT) + "(nil)", nil
 		}
-		if c.ln > replayElems || c.ln < 0 {
+		if c.ln < 0 || c.off < 0 {
+			// not a well-formed slice value (unconstrained initial content of an output cell)
+			return rc.typeStr(c.goT) + "(nil)", nil
+		}
+		if c.ln > replayElems {
 			return "", fmt.Errorf("slice input of length %d exceeds the replay cap %d", c.ln, replayElems)
 		}
 		el := c.goT.Underlying().(*types.Slice).Elem()
@@ -704,7 +708,7 @@ func doReplay(e *Engine, u *Unit, o *Obligation, fn *ssa.Function, repo string) 
 		solver = "z3-new"
 	}
 	var res solveResult
-	for _, bound := range []int{4, 40, -1} {
+	for _, bound := range []int{4, 40, 150, -1} {
 		var sb strings.Builder
 		sb.WriteString(script)
 		if bound >= 0 {
@@ -720,6 +724,10 @@ func doReplay(e *Engine, u *Unit, o *Obligation, fn *ssa.Function, repo string) 
 		sf := filepath.Join(tmpd, "q.smt2")
 		os.WriteFile(sf, []byte(sb.String()), 0o644)
 		res = runSolver(solver, sf, 20)
+		if os.Getenv("GOVC_DEBUG") != "" {
+			os.WriteFile(fmt.Sprintf("/tmp/govc-debug-bound%d.smt2", bound), []byte(sb.String()), 0o644)
+			fmt.Fprintf(os.Stderr, "replay model search bound=%d: %s (%.1fs)\n", bound, res.status, res.secs)
+		}
 		if res.status == "sat" {
 			break
 		}
